@@ -7,9 +7,13 @@ operation Mut k w and cannot reach the store).  memo1 = legacy model of the
 code before the fix (one shared store, stored arrays returned without copy),
 kept for documentation only.  Theorems in Props/C16.v.
 
-Correspondence: random histories (calls in both directions over a small
-alphabet that contains nearly-equal vectors and outputs of earlier calls,
-in-place mutation of arrays returned earlier) are run on the real
+Histories are programs of a caller that owns array OBJECTS: alphabet arrays
+(persistent objects passed again and again, a COMMON alphabet for both
+directions when the operator is square), fresh copies, and the arrays
+returned by earlier calls (fed back as the same object or as a copy); the
+caller may overwrite in place any array it holds (returned earlier -> Mut,
+passed as input earlier -> MutIn) between calls.
+Correspondence: random such histories (nearly-equal vectors included) are run on the real
 pylops.MemoizeOperator wrapped around a counting operator; returned values,
 number of evaluations of the wrapped operator and len(store) after every
 call are compared INSIDE Coq with memo2 executed on the same history.
@@ -33,7 +37,7 @@ import numpy as np
 from . import common
 
 PID = "C16"
-HARNESS_VERSION = 2
+HARNESS_VERSION = 3
 MYFILES = ["State/Memoize.v", "Corr/CheckC16.v"]
 
 # No known findings: both historical defects (shared store, aliasing of returned
@@ -69,6 +73,11 @@ def ensure_compiled():
 
 
 # ------------------------------------------------------------------ implementation runs
+# History operations (the caller's program):
+#   ("c", d, inn, out, lit)  call matvec (d="F") / rmatvec (d="A") with the caller's array named `inn`
+#                            as input (the OBJECT itself is passed); the returned array is named `out`;
+#                            lit is None (array exists already) or the content of a new array created now
+#   ("w", name, content)     the caller overwrites array `name` in place
 def _pylops():
     import pylops
     return pylops
@@ -104,23 +113,56 @@ def bare(A, cplx, d, v):
     return A @ v if d == "F" else A.conj().T @ v
 
 
-def run_history(A, cplx, maxn, hist):
-    """hist: [('c', 'F'|'A', v) | ('m', k, w)].  Returns per call
-    (returned value copy, evaluations so far, len(store), neval attribute)."""
-    M, C, _ = build(A, cplx, maxn)
-    rets, obs = [], []
-    dt = np.complex128 if cplx else np.float64
-    for op in hist:
+class Runner:
+    """Executes a history on a fresh MemoizeOperator; records per call
+    (returned value copy, evaluations so far, len(store), neval attribute, input content, direction)
+    and the history in the vocabulary of the Coq model (Call / Mut / MutIn)."""
+
+    def __init__(self, A, cplx, maxn):
+        self.M, self.C, _ = build(A, cplx, maxn)
+        self.A, self.cplx, self.maxn = A, cplx, maxn
+        self.dt = np.complex128 if cplx else np.float64
+        self.shape = np.asarray(A).shape
+        self.pool, self.obs, self.coq = {}, [], []
+        self.ret_of, self.first_in = {}, {}
+        self.done = []                       # operations actually executed (dangling ones are skipped)
+
+    def step(self, op):
         if op[0] == "c":
-            v = np.array(op[2], dtype=dt)
-            r = M.matvec(v) if op[1] == "F" else M.rmatvec(v)
-            rets.append(r)
-            obs.append((np.array(r, dtype=dt, copy=True), C.count, len(M.store), getattr(M, "neval", None)))
+            _, d, inn, out, lit = op
+            if lit is not None:
+                self.pool[inn] = np.array(lit, dtype=self.dt)
+            if inn not in self.pool or self.pool[inn].shape != ((self.shape[1],) if d == "F" else (self.shape[0],)):
+                return False
+            vin = self.pool[inn].copy()
+            r = self.M.matvec(self.pool[inn]) if d == "F" else self.M.rmatvec(self.pool[inn])
+            k = len(self.obs)
+            self.pool[out] = r
+            self.ret_of[out] = k
+            if inn not in self.ret_of:
+                self.first_in.setdefault(inn, k)
+            self.obs.append((np.array(r, dtype=self.dt, copy=True), self.C.count, len(self.M.store),
+                             getattr(self.M, "neval", None), vin, d))
+            self.coq.append(("Call", d, vin))
         else:
-            k, w = op[1], np.array(op[2], dtype=dt)
-            if k < len(rets):
-                rets[k][...] = w          # the caller writes into the array it was given
-    return obs
+            _, name, w = op
+            w = np.array(w, dtype=self.dt)
+            if name not in self.pool or self.pool[name].shape != w.shape:
+                return False
+            self.pool[name][...] = w          # in place: the caller writes into an array it holds
+            if name in self.ret_of:
+                self.coq.append(("Mut", self.ret_of[name], w))
+            elif name in self.first_in:
+                self.coq.append(("MutIn", self.first_in[name], w))
+        self.done.append(op)
+        return True
+
+
+def execute(A, cplx, maxn, hist):
+    R = Runner(A, cplx, maxn)
+    for op in hist:
+        R.step(op)
+    return R
 
 
 def prop_bound(A, cplx, d, v):
@@ -130,34 +172,29 @@ def prop_bound(A, cplx, d, v):
     return (A @ t if d == "F" else A.T @ t) * 1.5 + 1e-9
 
 
-def judge(A, cplx, maxn, hist, obs=None):
+def judge(A, cplx, maxn, hist, run=None):
     """The property on the implementation.  Returns None or (call index, reason)."""
-    if obs is None:
-        obs = run_history(A, cplx, maxn, hist)
-    calls = [op for op in hist if op[0] == "c"]
-    prev_count = 0
-    prev = None
-    j = 0
-    for op in hist:
+    if run is None:
+        run = execute(A, cplx, maxn, hist)
+    prev_count, prev, j = 0, None, 0
+    for op in run.done:
         if op[0] != "c":
             prev = None
             continue
-        r, cnt, ln, attr = obs[j]
-        v = np.array(op[2], dtype=r.dtype)
-        e = bare(A, cplx, op[1], v)
-        if r.shape != e.shape or not np.all(np.abs(r - e) <= prop_bound(A, cplx, op[1], v)):
-            return (j, "call %d (%s) returned %s, the bare operator gives %s"
-                    % (j, "matvec" if op[1] == "F" else "rmatvec", _fmt(r), _fmt(e)))
+        r, cnt, ln, attr, v, d = run.obs[j]
+        e = bare(A, cplx, d, v)
+        if r.shape != e.shape or not np.all(np.abs(r - e) <= prop_bound(A, cplx, d, v)):
+            return (j, "call %d (%s of %s) returned %s, the bare operator gives %s"
+                    % (j, "matvec" if d == "F" else "rmatvec", _fmt(v), _fmt(r), _fmt(e)))
         if ln > maxn:
             return (j, "len(store) = %d exceeds max_neval = %d after call %d" % (ln, maxn, j))
         if cnt - prev_count > 1:
             return (j, "call %d evaluated the wrapped operator %d times" % (j, cnt - prev_count))
-        if prev is not None and prev[0] == op[1] and np.array_equal(prev[1], v) and cnt != prev_count:
+        if prev is not None and prev[0] == d and np.array_equal(prev[1], v) and cnt != prev_count:
             return (j, "call %d repeats the input of call %d but evaluated the wrapped operator again" % (j, j - 1))
         if attr is not None and attr != cnt:
             return (j, "neval attribute = %s but the wrapped operator was evaluated %d times" % (attr, cnt))
-        prev_count = cnt
-        prev = (op[1], v)
+        prev_count, prev = cnt, (d, v)
         j += 1
     return None
 
@@ -166,106 +203,27 @@ def _fmt(v):
     return "[" + ", ".join(("%g%+gj" % (t.real, t.imag)) if np.iscomplexobj(v) else ("%g" % t) for t in np.ravel(v)) + "]"
 
 
-def hit_flags(A, cplx, maxn, hist):
-    """per call: True if the wrapped operator was NOT evaluated (cache hit)."""
-    obs = run_history(A, cplx, maxn, hist)
-    flags, prev = [], 0
-    for o in obs:
-        flags.append(o[1] == prev)
-        prev = o[1]
-    return flags
-
-
-def triggers(A, cplx, maxn, hist):
-    """Triggers of the known findings present in a history: 'mixed' = both
-    directions used; 'mutation' = the caller writes into an array that was
-    returned by a cache HIT (a write into a freshly computed result cannot
-    reach the store in the code as it stands and is not a known trigger)."""
-    dirs = {op[1] for op in hist if op[0] == "c"}
-    t = set()
-    muts = [op for op in hist if op[0] == "m"]
-    if muts:
-        hf = hit_flags(A, cplx, maxn, hist)
-        if any(op[1] < len(hf) and hf[op[1]] for op in muts):
-            t.add("mutation")
-    if len(dirs) > 1:
-        t.add("mixed")
-    return t
-
-
-def drop_hit_mutations(A, cplx, maxn, hist):
-    for _ in range(4):
-        hf = hit_flags(A, cplx, maxn, hist)
-        drop = {i for i, op in enumerate(hist) if op[0] == "m" and (op[1] >= len(hf) or hf[op[1]])}
-        if not drop:
-            break
-        hist = remove_ops(hist, drop)
-    return hist
-
-
-def variants(A, cplx, maxn, hist):
-    """Sub-histories ordered from 'no known trigger can be present' to the full history."""
-    out = []
-    nomut = [op for op in hist if op[0] == "c"]
-    for dsel in ("F", "A"):
-        out.append([op for op in nomut if op[1] == dsel])
-    for dsel in ("F", "A"):
-        one = remove_ops(hist, {i for i, op in enumerate(hist) if op[0] == "c" and op[1] != dsel})
-        out.append(drop_hit_mutations(A, cplx, maxn, one))
-    out.append(nomut)
-    out.append(drop_hit_mutations(A, cplx, maxn, hist))
-    out.append(list(hist))
-    seen, res = set(), []
-    for h in out:
-        k = repr([(op[0], op[1], np.asarray(op[2]).tolist()) for op in h])
-        if h and k not in seen:
-            seen.add(k)
-            res.append(h)
-    return res
-
-
-def find_failure(A, cplx, maxn, hist, present):
-    """Minimal failing history of the property on the implementation.  Prefers a
-    failure that is NOT explained by a known trigger still present in the tree.
-    Returns (minimal history, reason, triggers, is_known) or None."""
-    fails = lambda h: judge(A, cplx, maxn, h) is not None
-    best = None
-    for hv in variants(A, cplx, maxn, hist):
-        if not fails(hv):
-            continue
-        hm = shrink_values(A, cplx, maxn, ddmin(A, cplx, maxn, hv, fails), fails)
-        trig = triggers(A, cplx, maxn, hm)
-        known = bool(trig) and all(present.get(t) for t in trig)
-        res = (hm, judge(A, cplx, maxn, hm)[1], trig, known)
-        if not known:
-            return res
-        if best is None:
-            best = res
-    return best
-
-
-def remove_ops(hist, drop):
-    """Remove the operations at positions `drop`; mutations of removed calls go too, call indices are renumbered."""
-    cidx, newidx, j, nj = {}, {}, 0, 0
-    for i, op in enumerate(hist):
+def normalise(hist):
+    """Drop operations that refer to arrays which do not exist (any more)."""
+    have, out = set(), []
+    for op in hist:
         if op[0] == "c":
-            if i not in drop:
-                newidx[j] = nj
-                nj += 1
-            j += 1
-    out = []
-    for i, op in enumerate(hist):
-        if i in drop:
-            continue
-        if op[0] == "c":
+            if op[4] is None and op[2] not in have:
+                continue
+            have.add(op[2]); have.add(op[3])
             out.append(op)
-        elif op[1] in newidx:
-            out.append(("m", newidx[op[1]], op[2]))
+        elif op[1] in have:
+            out.append(op)
     return out
 
 
+def remove_ops(hist, drop):
+    return normalise([op for i, op in enumerate(hist) if i not in drop])
+
+
 def ddmin(A, cplx, maxn, hist, fails):
-    """Delta debugging on the operation list (ddmin, granularity down to single ops)."""
+    """Delta debugging on the operation list (granularity down to single operations)."""
+    hist = normalise(hist)
     assert fails(hist)
     n = 2
     while len(hist) >= 2:
@@ -284,35 +242,63 @@ def ddmin(A, cplx, maxn, hist, fails):
     return hist
 
 
-def shrink_values(A, cplx, maxn, hist, fails):
-    """After ddmin: try to replace mutation contents / inputs by simpler ones (zeros) while still failing."""
-    for i, op in enumerate(hist):
-        if op[0] == "m":
-            cand = list(hist)
-            cand[i] = ("m", op[1], [0] * len(op[2]))
-            if fails(cand):
-                hist = cand
-    return hist
+def simplify(A, cplx, maxn, hist, fails):
+    """After ddmin: inline inputs that are used once as fresh arrays, then rename arrays canonically."""
+    # an input array referenced by exactly one call and never written: make it a fresh literal (already is if lit)
+    names, k_in, k_out = {}, 0, 0
+    for op in hist:
+        if op[0] == "c":
+            if op[2] not in names:
+                names[op[2]] = "in%d" % k_in
+                k_in += 1
+            names[op[3]] = "out%d" % k_out
+            k_out += 1
+    ren = []
+    for op in hist:
+        if op[0] == "c":
+            ren.append(("c", op[1], names[op[2]], names[op[3]], op[4]))
+        else:
+            ren.append(("w", names.get(op[1], op[1]), op[2]))
+    return ren if fails(ren) else hist
+
+
+def find_failure(A, cplx, maxn, hist):
+    """Minimal failing history of the property on the implementation, or None."""
+    fails = lambda h: judge(A, cplx, maxn, h) is not None
+    if not fails(normalise(hist)):
+        return None
+    hm = simplify(A, cplx, maxn, ddmin(A, cplx, maxn, hist, fails), fails)
+    return hm, judge(A, cplx, maxn, hm)[1]
 
 
 # ------------------------------------------------------------------ probes (behavioural)
 PROBE_A = [[1, 2], [3, 4], [0, 1]]
-
-
-PROBE_MIXED = [("c", "A", [1, 2, 3]), ("c", "F", [7, 13])]
-PROBE_ALIAS = [("c", "F", [1, 1]), ("c", "F", [1, 1]), ("m", 1, [103, 107, 101]), ("c", "F", [1, 1])]
-
-
-def probe_mixed():
-    return judge(PROBE_A, False, 3, PROBE_MIXED)
-
-
-def probe_alias():
-    return judge(PROBE_A, False, 3, PROBE_ALIAS)
+PROBE_SQ = [[1, 2], [3, 4]]
+PROBE_SQC = [[1, 1j], [2, 1]]
+PROBES = [
+    ("mixed-direction lookup (rmatvec y; matvec Op^H y)", PROBE_A, False,
+     [("c", "A", "in0", "out0", [1, 2, 3]), ("c", "F", "in1", "out1", [7, 13])]),
+    ("aliasing of a returned array (hit; caller overwrites the returned array; same call again)", PROBE_A, False,
+     [("c", "F", "in0", "out0", [1, 1]), ("c", "F", "in1", "out1", [1, 1]), ("w", "out1", [103, 107, 101]),
+      ("c", "F", "in2", "out2", [1, 1])]),
+    ("aliasing of an input array (matvec x; caller rewrites x in place; matvec x with the same object)", PROBE_A, False,
+     [("c", "F", "in0", "out0", [1, 1]), ("w", "in0", [2, 5]), ("c", "F", "in0", "out1", None)]),
+    ("aliasing of an input array, adjoint (rmatvec y; caller rewrites y in place; rmatvec y)", PROBE_A, False,
+     [("c", "A", "in0", "out0", [1, 2, 3]), ("w", "in0", [0, 1, 1]), ("c", "A", "in0", "out1", None)]),
+    ("returned array fed back, updated in place, fed back again (x = rmatvec y; matvec x; x *= 3; matvec x)", PROBE_A, False,
+     [("c", "A", "in0", "out0", [1, 2, 3]), ("c", "F", "out0", "out1", None), ("w", "out0", [20, 39]),
+      ("c", "F", "out0", "out2", None)]),
+    ("square operator: same vector as model then as data (matvec v; rmatvec v)", PROBE_SQ, False,
+     [("c", "F", "in0", "out0", [1, 1]), ("c", "A", "in1", "out1", [1, 1])]),
+    ("square operator: same vector as data then as model (rmatvec v; matvec v)", PROBE_SQ, False,
+     [("c", "A", "in0", "out0", [1, 1]), ("c", "F", "in1", "out1", [1, 1])]),
+    ("square complex operator: same vector as model then as data", PROBE_SQC, True,
+     [("c", "F", "in0", "out0", [1, 1j]), ("c", "A", "in1", "out1", [1, 1j])]),
+]
 
 
 # ------------------------------------------------------------------ generation
-SHAPES = [(2, 2), (3, 3), (3, 2), (2, 3), (4, 2), (2, 4), (4, 3), (1, 2), (3, 1)]
+SHAPES = [(2, 2), (3, 3), (2, 2), (3, 2), (2, 3), (4, 2), (2, 4), (4, 3), (1, 2), (3, 1)]
 
 
 def gen_matrix(r, cplx):
@@ -325,6 +311,8 @@ def gen_matrix(r, cplx):
         H = A @ A.conj().T
         if np.allclose(G, np.eye(n)) or np.allclose(H, np.eye(m)):      # must not be (semi-)unitary
             continue
+        if m == n and np.allclose(A, A.conj().T):                       # square: forward and adjoint must differ
+            continue
         return A
 
 
@@ -336,14 +324,12 @@ def _ivec(r, n, cplx, lo=-3, hi=3):
 
 
 def gen_history(r, A, cplx, maxn, L, mode, with_mut):
-    """Generate and run in one pass (inputs may be outputs of earlier calls).
-    Returns (concrete history, obs, stats)."""
+    """Generate a caller program while running it (inputs may be arrays returned earlier).
+    Returns (history, stats)."""
     m, n = A.shape
     dt = np.complex128 if cplx else np.float64
-    x1 = _ivec(r, n, cplx)
-    x2 = _ivec(r, n, cplx)
-    y1 = _ivec(r, m, cplx)
-    y2 = _ivec(r, m, cplx)
+    square = m == n
+
     def pert(v, eps):
         p = np.array([(1 if r.random() < 0.7 else 0) for _ in v], dtype=dt)
         if not p.any():
@@ -351,72 +337,91 @@ def gen_history(r, A, cplx, maxn, L, mode, with_mut):
         if cplx and r.random() < 0.5:
             p = p * 1j
         return v + eps * p
-    alpha = {"F": [x1, x2, pert(x1, 1e-9), pert(x1, 1e-3), pert(x2, 1e-9)],
-             "A": [y1, y2, pert(y1, 1e-9), pert(y1, 1e-3)]}
-    M, C, _ = build(A, cplx, maxn)
-    hist, obs, rets, vals, cdir = [], [], [], [], []
-    st = {"fed": 0, "near": 0, "mut": 0}
+    x1, x2 = _ivec(r, n, cplx), _ivec(r, n, cplx)
+    base = {"xa": x1, "xb": x2, "xc": pert(x1, 1e-9), "xd": pert(x1, 1e-3), "xe": pert(x2, 1e-9)}
+    if square:
+        alpha = {"F": sorted(base), "A": sorted(base)}          # COMMON alphabet: the same vectors as model and as data
+    else:
+        y1, y2 = _ivec(r, m, cplx), _ivec(r, m, cplx)
+        base.update({"ya": y1, "yb": y2, "yc": pert(y1, 1e-9), "yd": pert(y1, 1e-3)})
+        alpha = {"F": ["xa", "xb", "xc", "xd", "xe"], "A": ["ya", "yb", "yc", "yd"]}
+    run = Runner(A, cplx, maxn)
+    hist = []
+    st = {"fed": 0, "fed_same_object": 0, "near": 0, "w_ret": 0, "w_in": 0, "reused_objects": 0, "both_spaces": 0}
+    used = {}                   # alphabet name -> set of directions it was used in
+    ntmp = 0
     steps = 0
     while steps < L:
         steps += 1
-        if with_mut and rets and r.random() < 0.25:
-            k = r.randrange(len(rets)) if r.random() < 0.4 else len(rets) - 1
-            cur = np.array(rets[k], dtype=dt, copy=True)
-            kind = r.choice(["add", "scale", "set", "zero"])
+        if with_mut and run.pool and r.random() < 0.28:
+            names = sorted(run.pool)
+            name = r.choice(names)
+            if r.random() < 0.5:         # bias to recently used arrays
+                last = [op for op in hist if op[0] == "c"][-1]
+                name = r.choice([last[2], last[3]])
+            cur = run.pool[name].copy()
+            kind = r.choice(["add", "scale", "set", "zero", "alpha", "step"])
             if kind == "add":
                 w = cur.copy(); w[r.randrange(len(w))] += r.choice([1, -2, 100])
             elif kind == "scale":
-                w = cur * r.choice([2, -1])
+                w = cur * r.choice([2, -1, 3])
             elif kind == "set":
                 w = _ivec(r, len(cur), cplx, -9, 9)
+            elif kind == "alpha":
+                c = [b for b in base.values() if len(b) == len(cur)]
+                w = r.choice(c).copy()
+            elif kind == "step":
+                w = cur * 3; w[0] -= 1
             else:
                 w = np.zeros_like(cur)
             if np.abs(w).max(initial=0) > 1e6:
                 continue
-            rets[k][...] = w
-            hist.append(("m", k, w.copy()))
-            st["mut"] += 1
+            op = ("w", name, w.copy())
+            if run.step(op):
+                hist.append(op)
+                st["w_ret" if name in run.ret_of else "w_in"] += 1
             continue
         d = mode if mode in ("F", "A") else r.choice(["F", "A"])
-        src = None
-        if r.random() < 0.4:
-            # outputs of earlier calls that live in the input space of direction d
-            cands = [i for i, dd in enumerate(cdir) if dd != d and np.abs(vals[i]).max(initial=0) < 1e4]
-            if mode in ("F", "A") and m == n:
-                cands = [i for i in range(len(cdir)) if np.abs(vals[i]).max(initial=0) < 1e4]
+        need = n if d == "F" else m
+        op = None
+        if r.random() < 0.35:
+            cands = [nm for nm, k in run.ret_of.items() if run.pool[nm].shape == (need,) and np.abs(run.pool[nm]).max(initial=0) < 1e4]
             if cands:
-                src = vals[r.choice(cands)].copy()
+                nm = r.choice(sorted(cands))
                 st["fed"] += 1
-        if src is None:
-            i = r.randrange(len(alpha[d]))
-            if i >= 2:
+                if r.random() < 0.6:
+                    op = ("c", d, nm, "r%d" % len(run.obs), None)          # the returned OBJECT itself
+                    st["fed_same_object"] += 1
+                else:
+                    ntmp += 1
+                    op = ("c", d, "t%d" % ntmp, "r%d" % len(run.obs), run.pool[nm].copy())
+        if op is None:
+            nm = r.choice(alpha[d])
+            if nm[1] in "cde":
                 st["near"] += 1
-            src = alpha[d][i].copy()
-        v = src
-        res = M.matvec(v.copy()) if d == "F" else M.rmatvec(v.copy())
-        rets.append(res)
-        vals.append(np.array(res, dtype=dt, copy=True))
-        cdir.append(d)
-        hist.append(("c", d, v.copy()))
-        obs.append((vals[-1], C.count, len(M.store), getattr(M, "neval", None)))
-    return hist, obs, st
+            used.setdefault(nm, set()).add(d)
+            if r.random() < 0.7:
+                if nm in run.pool:
+                    op = ("c", d, nm, "r%d" % len(run.obs), None)          # persistent caller array, same object again
+                    st["reused_objects"] += 1
+                else:
+                    op = ("c", d, nm, "r%d" % len(run.obs), base[nm].copy())
+            else:
+                ntmp += 1
+                op = ("c", d, "t%d" % ntmp, "r%d" % len(run.obs), base[nm].copy())
+        if run.step(op):
+            hist.append(op)
+    st["both_spaces"] = sum(1 for v in used.values() if len(v) == 2)
+    return hist, st
 
 
-def _ac(a, b, f):
-    return bool(np.all(np.abs(a - b) <= f * (ATOL + RTOL * np.abs(b))))
-
-
-def borderline(A, cplx, hist, obs):
+def borderline(A, cplx, run):
     """True if some allclose decision between two vectors that can meet in the
     store would flip when both tolerances are scaled by 10 or 1/10."""
     vecs = []
-    j = 0
-    for op in hist:
-        vecs.append(np.asarray(op[2]))
-        if op[0] == "c":
-            vecs.append(obs[j][0])
-            vecs.append(bare(A, cplx, op[1], np.asarray(op[2])))
-            j += 1
+    for o in run.obs:
+        vecs += [o[4], o[0], bare(A, cplx, o[5], o[4])]
+    vecs += [c[2] for c in run.coq if c[0] != "Call"]
     groups = {}
     for v in vecs:
         groups.setdefault(v.shape, []).append(np.asarray(v, dtype=complex))
@@ -438,11 +443,11 @@ def case_lit(c):
     cplx = c["cplx"]
     pre = "c16" if cplx else "r16"
     hl = []
-    for op in c["hist"]:
-        if op[0] == "c":
+    for op in c["coq"]:
+        if op[0] == "Call":
             hl.append("Call %s %s" % ("Fwd" if op[1] == "F" else "Adj", _vl(op[2], cplx)))
         else:
-            hl.append("Mut %d %s" % (op[1], _vl(op[2], cplx)))
+            hl.append("%s %d %s" % (op[0], op[1], _vl(op[2], cplx)))
     ol = ["(%s, %d, %d)" % (_vl(o[0], cplx), o[1], o[2]) for o in c["out"]]
     A = np.asarray(c["A"])
     return ("{| %s_id := %d; %s_model := %d; %s_n := %d; %s_A := %s; %s_maxn := %d;\n   %s_hist := [%s];\n   %s_out := [%s] |}"
@@ -476,9 +481,12 @@ def _hist_json(hist):
     out = []
     for op in hist:
         if op[0] == "c":
-            out.append({"op": "matvec" if op[1] == "F" else "rmatvec", "x": [str(complex(t)) for t in op[2]]})
+            o = {"op": "matvec" if op[1] == "F" else "rmatvec", "input_array": op[2], "returned_array": op[3]}
+            if op[4] is not None:
+                o["input_is_new_array_with_content"] = [str(complex(t)) for t in op[4]]
+            out.append(o)
         else:
-            out.append({"op": "mutate_returned", "call": int(op[1]), "new_content": [str(complex(t)) for t in op[2]]})
+            out.append({"op": "overwrite_in_place", "array": op[1], "content": [str(complex(t)) for t in op[2]]})
     return out
 
 
@@ -486,17 +494,22 @@ def _hist_from_json(hj, cplx):
     cv = (lambda L: np.array([complex(t) for t in L])) if cplx else (lambda L: np.array([complex(t).real for t in L]))
     out = []
     for o in hj:
-        if o["op"] == "mutate_returned":
-            out.append(("m", int(o["call"]), cv(o["new_content"])))
+        if o["op"] == "overwrite_in_place":
+            out.append(("w", o["array"], cv(o["content"])))
         else:
-            out.append(("c", "F" if o["op"] == "matvec" else "A", cv(o["x"])))
+            lit = o.get("input_is_new_array_with_content")
+            out.append(("c", "F" if o["op"] == "matvec" else "A", o["input_array"], o["returned_array"],
+                        cv(lit) if lit is not None else None))
     return out
 
 
 def replay_dict(A, cplx, maxn, hist, reason):
     return {"operator": "MemoizeOperator(MatrixMult(A), max_neval)", "A": [[str(complex(t)) for t in row] for row in np.asarray(A)],
             "complex": bool(cplx), "max_neval": int(maxn), "history": _hist_json(hist), "observed": reason,
-            "expected": "every call returns what MatrixMult(A) returns for that input; len(store) <= max_neval; no re-evaluation of a repeated input"}
+            "expected": "every call returns what MatrixMult(A) returns for the content its input has at the time of the call; "
+                        "len(store) <= max_neval; no re-evaluation of a repeated input",
+            "how": "array names denote caller-held array OBJECTS: the same name passed twice is the same object; "
+                   "overwrite_in_place is arr[...] = content"}
 
 
 def replay(rp):
@@ -524,47 +537,60 @@ def main(tier):
     thms, axioms = common.props_assumptions(PID)
     t0 = time.time()
     model = 2                      # memo2 is THE model of the current code
-    for nm, hp, pr in (("mixed-direction lookup (rmatvec y; matvec Op^H y)", PROBE_MIXED, probe_mixed()),
-                       ("aliasing of a returned array (hit; caller overwrites it; same call again)", PROBE_ALIAS, probe_alias())):
+    known = [k for k in PROPOSED_KNOWN + common.load_known() if k.get("property") == PID]      # none expected
+    cases = []
+    nprobe_fail = 0
+    for nm, PA, cplx, hp in PROBES:
+        A = np.array(PA)
+        run = execute(A, cplx, 3, hp)
+        pr = judge(A, cplx, 3, hp, run)
         if pr is not None:
-            R.violation("MemoizeOperator is not transparent: legacy defect is back: %s: %s" % (nm, pr[1]),
-                        replay_dict(np.array(PROBE_A), False, 3, hp, pr[1]))
-    R.notes.append("canonical probes (mixed-direction, aliasing): %s; model memo2"
-                   % ("both transparent" if not R.violations else "FAILED"))
+            nprobe_fail += 1
+            R.violation("MemoizeOperator is not transparent: %s: %s" % (nm, pr[1]), replay_dict(A, cplx, 3, hp, pr[1]))
+        cases.append({"id": len(cases), "A": A, "cplx": cplx, "maxn": 3, "hist": hp, "out": run.obs, "coq": run.coq,
+                      "model": model, "mode": "M", "run": run})
+    nfixed = len(cases)
+    R.notes.append("canonical probes (%d: mixed directions, aliasing of returned / input arrays, square operator with a common vector): %s"
+                   % (nfixed, "all transparent" if not nprobe_fail else "%d FAILED" % nprobe_fail))
 
     nh, Lmax = (300, 8) if tier == "quick" else (5000, 20)
-    cases, discarded = [], 0
+    discarded = 0
     dist = {"real": 0, "complex": 0, "square": 0, "rect": 0, "mode_F": 0, "mode_A": 0, "mode_mixed": 0,
-            "with_mutation": 0, "fed_back_inputs": 0, "near_equal_inputs": 0, "hits": 0, "evictions": 0, "calls": 0}
+            "with_in_place_writes": 0, "writes_to_returned_arrays": 0, "writes_to_input_arrays": 0,
+            "fed_back_inputs": 0, "fed_back_as_same_object": 0, "reused_input_objects": 0, "near_equal_inputs": 0,
+            "alphabet_vectors_used_as_model_and_data": 0, "hits": 0, "evictions": 0, "calls": 0}
     maxn_count = {}
-    # fixed corpus first: the two canonical probes (as cases of the correspondence)
-    fixed = [(np.array(PROBE_A), False, 3, [("c", "A", np.array([1., 2, 3])), ("c", "F", np.array([7., 13]))]),
-             (np.array(PROBE_A), False, 3, [("c", "F", np.array([1., 1])), ("c", "F", np.array([1., 1])),
-                                            ("m", 1, np.array([103., 107, 101])), ("c", "F", np.array([1., 1]))])]
-    for A, cplx, maxn, hist in fixed:
-        obs = run_history(A, cplx, maxn, hist)
-        cases.append({"id": len(cases), "A": A, "cplx": cplx, "maxn": maxn, "hist": hist, "out": obs, "model": model, "mode": "M"})
     i = 0
-    while len(cases) < nh + len(fixed):
+    while len(cases) < nh + nfixed:
         r = common.rng(PID, tier, i)
         i += 1
         cplx = r.random() < 0.4
         A = gen_matrix(r, cplx)
         maxn = r.choice([1, 2, 3, 10])
         mode = r.choice(["F", "A", "M", "M", "M"])
-        with_mut = r.random() < 0.5
+        if A.shape[0] == A.shape[1] and mode != "M" and r.random() < 0.5:
+            mode = "M"
+        with_mut = r.random() < 0.55
         L = r.randint(2, Lmax)
-        hist, obs, st = gen_history(r, A, cplx, maxn, L, mode, with_mut)
-        if not obs or borderline(A, cplx, hist, obs):
+        hist, st = gen_history(r, A, cplx, maxn, L, mode, with_mut)
+        run = execute(A, cplx, maxn, hist)
+        if not run.obs or borderline(A, cplx, run):
             discarded += 1
             continue
-        cases.append({"id": len(cases), "A": A, "cplx": cplx, "maxn": maxn, "hist": hist, "out": obs, "model": model, "mode": mode})
+        obs = run.obs
+        cases.append({"id": len(cases), "A": A, "cplx": cplx, "maxn": maxn, "hist": hist, "out": obs, "coq": run.coq,
+                      "model": model, "mode": mode, "run": run})
         dist["complex" if cplx else "real"] += 1
         dist["square" if A.shape[0] == A.shape[1] else "rect"] += 1
         dist["mode_" + {"F": "F", "A": "A", "M": "mixed"}[mode]] += 1
-        dist["with_mutation"] += 1 if st["mut"] else 0
+        dist["with_in_place_writes"] += 1 if (st["w_ret"] + st["w_in"]) else 0
+        dist["writes_to_returned_arrays"] += st["w_ret"]
+        dist["writes_to_input_arrays"] += st["w_in"]
         dist["fed_back_inputs"] += st["fed"]
+        dist["fed_back_as_same_object"] += st["fed_same_object"]
+        dist["reused_input_objects"] += st["reused_objects"]
         dist["near_equal_inputs"] += st["near"]
+        dist["alphabet_vectors_used_as_model_and_data"] += st["both_spaces"]
         dist["calls"] += len(obs)
         dist["hits"] += len(obs) - obs[-1][1]
         dist["evictions"] += max(0, obs[-1][1] - maxn)
@@ -572,48 +598,35 @@ def main(tier):
     t_py = time.time() - t0
 
     # ---- the property, judged on the implementation
-    present = {k["trigger"]: True for k in PROPOSED_KNOWN + common.load_known() if k.get("property") == PID and "trigger" in k}
-    kn = {k["id"]: k for k in PROPOSED_KNOWN + [k for k in common.load_known() if k.get("property") == PID and "trigger" in k]}
-    judged_fail, n_known, seen_min, viol_keys = [], 0, set(), set()
-    budget = 80 if tier == "quick" else 400
-    for c in cases:
-        res = judge(c["A"], c["cplx"], c["maxn"], c["hist"], c["out"])
+    judged_fail, viol_keys = [], set()
+    budget = 60 if tier == "quick" else 300
+    for c in cases[nfixed:]:
+        res = judge(c["A"], c["cplx"], c["maxn"], c["hist"], c["run"])
         if res is None:
             continue
         judged_fail.append(c["id"])
-        if len(judged_fail) > budget or len(viol_keys) >= 5:
+        if len(judged_fail) > budget or len(viol_keys) >= 4:
             continue
-        ff = find_failure(c["A"], c["cplx"], c["maxn"], c["hist"], present)
+        ff = find_failure(c["A"], c["cplx"], c["maxn"], c["hist"])
         if ff is None:       # recorded run failed but a fresh run does not: non-determinism
             if "nondet" not in viol_keys:
                 viol_keys.add("nondet")
                 R.violation("history %d fails the property when recorded but not when re-run" % c["id"],
                             replay_dict(c["A"], c["cplx"], c["maxn"], c["hist"], res[1]))
             continue
-        hm, why, trig, known = ff
-        if known:
-            n_known += 1
-            for k in kn.values():
-                if k["trigger"] in trig:
-                    R.known_finding(k["id"], k["what"])
-            key = (tuple(sorted(trig)), len(hm))
-            if key not in seen_min and len(seen_min) < 6:
-                seen_min.add(key)
-                R.notes.append("minimal failing history (%s): %s -> %s" % ("+".join(sorted(trig)), json.dumps(_hist_json(hm)), why))
-        else:
-            key = why.split(" returned ")[0][:60] if " returned " in why else why[:40]
-            key = "".join(ch for ch in key if not ch.isdigit())
-            if key not in viol_keys:
-                viol_keys.add(key)
-                R.violation("MemoizeOperator is not transparent (not explained by a known finding): " + why,
-                            replay_dict(c["A"], c["cplx"], c["maxn"], hm, why))
+        hm, why = ff
+        key = (len(hm), tuple((op[0], op[1]) if op[0] == "c" else ("w", op[1][:2]) for op in hm),
+               "".join(ch for ch in why.split(" returned ")[0][:40] if not ch.isdigit()) if " returned " in why else why[:30])
+        if key not in viol_keys:
+            viol_keys.add(key)
+            R.violation("MemoizeOperator is not transparent: " + why, replay_dict(c["A"], c["cplx"], c["maxn"], hm, why))
 
     # ---- correspondence in Coq (plus canary)
     t1 = time.time()
     canary = dict(cases[0])
     canary["id"] = len(cases)
     co = list(canary["out"])
-    co[0] = (co[0][0] + 1.0, co[0][1], co[0][2], co[0][3])
+    co[0] = (co[0][0] + 1.0,) + tuple(co[0][1:])
     canary["out"] = co
     failing = coq_check(cases + [canary], per=25 if tier == "quick" else 120)
     t_coq = time.time() - t1
@@ -627,15 +640,14 @@ def main(tier):
             break                 # a concrete property failure was already reported above
         c = byid[cid]
         reported += 1
-        ff = find_failure(c["A"], c["cplx"], c["maxn"], c["hist"], present)
-        if ff is not None and not ff[3]:
-            R.violation("MemoizeOperator is not transparent (not explained by a known finding): " + ff[1],
-                        replay_dict(c["A"], c["cplx"], c["maxn"], ff[0], ff[1]))
+        ff = find_failure(c["A"], c["cplx"], c["maxn"], c["hist"])
+        if ff is not None:
+            R.violation("MemoizeOperator is not transparent: " + ff[1], replay_dict(c["A"], c["cplx"], c["maxn"], ff[0], ff[1]))
         else:
-            R.violation("correspondence broken: pylops.MemoizeOperator no longer behaves like model memo%d (Coq codes %s: 1 value, 2 neval, "
-                        "3 len(store), 4 count) on history %d" % (model, codes, cid),
-                        dict(replay_dict(c["A"], c["cplx"], c["maxn"], c["hist"], "disagrees with Memoize.run%s" % ("" if model == 1 else "2")),
-                             broken="Corr.CheckC16.check%s16 vs State/Memoize.v model memo%d" % ("C" if c["cplx"] else "R", model),
+            R.violation("correspondence broken: pylops.MemoizeOperator no longer behaves like model memo2 (Coq codes %s: 1 value, 2 neval, "
+                        "3 len(store), 4 count) on history %d" % (codes, cid),
+                        dict(replay_dict(c["A"], c["cplx"], c["maxn"], c["hist"], "disagrees with Memoize.run2"),
+                             broken="Corr.CheckC16.check%s16 vs State/Memoize.v model memo2" % ("C" if c["cplx"] else "R"),
                              recorded=[[_fmt(o[0]), o[1], o[2]] for o in c["out"]]), no_input=True)
     if failing and not reported:
         R.notes.append("correspondence disagreements on %d histories (explained by the violations above)" % len(failing))
@@ -659,28 +671,31 @@ def main(tier):
         h.update(np.asarray(c["A"], dtype=complex).tobytes())
         h.update(str((c["maxn"], c["cplx"])).encode())
         for op in c["hist"]:
-            h.update(str(op[:2]).encode())
-            h.update(np.asarray(op[2], dtype=complex).tobytes())
+            h.update(str(op[:4] if op[0] == "c" else op[:2]).encode())
+            if op[-1] is not None:
+                h.update(np.asarray(op[-1], dtype=complex).tobytes())
         return h.hexdigest()
     nontriv = {sig(c) for c in cases if c["out"] and 0 < c["out"][-1][1] < len(c["out"])}
     R.cov.update(
         obligations=len(thms) + len(cases), discharged=len(thms) + len(cases) - len(failing),
         checker_cmd="make -C coq + coqc State/Memoize.v Corr/CheckC16.v Props/C16.v (Print Assumptions) + coqc .work/C16/c16_*.v "
-                    "(vm_compute: recorded run of pylops.MemoizeOperator vs Memoize.run%s on the same history)" % ("" if model == 1 else "2"),
+                    "(vm_compute: recorded run of pylops.MemoizeOperator vs Memoize.run2 on the same history)",
         theorems=thms, axioms_reported=axioms, evaluations=sum(len(c["out"]) for c in cases),
         distinct_nontrivial=len(nontriv),
-        rule="random histories (length 2..%d) of matvec/rmatvec/mutate-returned-array over an alphabet of 9 small-integer vectors "
-             "(incl. +1e-9 and +1e-3 perturbations) plus outputs of earlier calls fed back, max_neval in {1,2,3,10}, wrapped operator = "
-             "non-unitary integer / Gaussian-integer MatrixMult of shapes %s; histories with an allclose decision within a factor 10 of "
-             "the tolerance are discarded; evaluations = calls made on MemoizeOperator; non-trivial = distinct (matrix, max_neval, history) "
-             "with at least one cache hit and at least one miss" % (Lmax, SHAPES),
+        rule="%d canonical probes + random caller programs (2..%d operations): matvec / rmatvec whose input is a persistent alphabet array "
+             "OBJECT (5-9 small-integer vectors incl. +1e-9 and +1e-3 perturbations; one COMMON alphabet for both directions when the "
+             "operator is square), a fresh copy, or an array returned earlier (same object or copy), and in-place overwrites of any "
+             "array the caller holds (returned or passed earlier); max_neval in {1,2,3,10}; wrapped operator = non-unitary, "
+             "non-self-adjoint integer / Gaussian-integer MatrixMult of shapes %s; histories with an allclose decision within a factor "
+             "10 of the tolerance are discarded; evaluations = calls made on MemoizeOperator; non-trivial = distinct (matrix, max_neval, "
+             "history) with at least one cache hit and at least one miss" % (nfixed, Lmax, sorted(set(SHAPES))),
         histories=len(cases), discarded_borderline=discarded, distribution=dist, max_neval_counts=maxn_count,
-        faithful_model="memo%d" % model, property_failing_histories=len(judged_fail), failing_histories_explained_by_known_triggers=n_known, correspondence_disagreements=len(failing),
-        t_python=round(t_py, 1), t_coq=round(t_coq, 1), coqchk=coqchk)
+        faithful_model="memo2", property_failing_histories=len(judged_fail) + nprobe_fail, correspondence_disagreements=len(failing),
+        known_findings_configured=len(known), t_python=round(t_py, 1), t_coq=round(t_coq, 1), coqchk=coqchk)
     R.samples = [{"A": [[str(t) for t in row] for row in np.asarray(c["A"])], "max_neval": c["maxn"], "history": _hist_json(c["hist"]),
                   "returned": [_fmt(o[0]) for o in c["out"]], "evaluations": [o[1] for o in c["out"]], "len_store": [o[2] for o in c["out"]]}
-                 for c in cases[:2] + cases[2::max(1, len(cases) // 4)][:4]]
+                 for c in cases[:2] + cases[nfixed::max(1, len(cases) // 4)][:4]]
     R.assumptions = ["close = np.allclose(stored, query) with numpy defaults rtol=1e-5, atol=1e-8 (executed exactly over Qc; "
                      "generated histories keep every comparison a factor 10 away from the tolerance)",
-                     "caller mutation is modelled for arrays obtained through matvec/rmatvec (reshape views of the stored arrays)"]
+                     "the caller reaches arrays only through matvec/rmatvec (inputs passed as objects, outputs as returned)"]
     return R.finish()
